@@ -13,7 +13,7 @@ import (
 
 func init() {
 	register("C15",
-		"RDC-1: for every Read([]byte)(int,error) method of mailbox (NoiseGrpcConn, NoiseConn, connKit) every returned count is the constant 0, the result of copy(b, ...), or the count of a delegated Read(b) on a receiver-owned buffer - hence n <= len(b) on every path. RDC-2: the source of such a copy is a prefix of a receiver field F, F is advanced by exactly the copy count on every path to the return, F is only refilled when empty and only with a whole received message, and nobody else writes F; a received message otherwise flows whole into a receiver-owned bytes.Buffer. RDC-3: Write methods return 0 with an error, the count of Flush, or len(b) after the whole b was handed to the layer below; chunked writes are contiguous and accumulate the flushed count before testing the error; WriteMessage encrypts a new record only when nothing of the previous one is pending (accepted bytes are never overwritten). A payload is taken out of a message struct that is created anew for every receive. RDC-4: a Read that serves the caller through bytes.Buffer.Read (which reports io.EOF on an empty buffer) does so only under Len() != 0, so an empty record or empty message of the peer cannot end the stream. TRUNC: every narrowing integer conversion in mailbox is dominated by a bound that makes it exact (no silent truncation of lengths). Not decided: the equality of concatenations as a property of histories (follows from RDC-1/2/3 + C08 + C16 only by an inductive argument the checker does not make).",
+		"RDC-1: for every Read([]byte)(int,error) method of mailbox (NoiseGrpcConn, NoiseConn, connKit) every returned count is the constant 0, the result of copy(b, ...), or the count of a delegated Read(b) on a receiver-owned buffer - hence n <= len(b) on every path. RDC-2: the source of such a copy is a prefix of a receiver field F, F is advanced by exactly the copy count on every path to the return, F is only refilled when empty and only with a whole received message, and nobody else writes F; a received message otherwise flows whole into a receiver-owned bytes.Buffer. RDC-3: Write methods return 0 with an error, the count of Flush, or len(b) after the whole b was handed to the layer below; chunked writes are contiguous and accumulate the flushed count before testing the error; WriteMessage encrypts a new record only when nothing of the previous one is pending (accepted bytes are never overwritten). A payload is taken out of a message struct that is created anew for every receive. DUPLEX (as C05/C08): Decrypt on the read path and Encrypt on the write path use fresh destination buffers and the two paths share no Machine field, so bytes retained between Read calls are never overwritten. RDC-4: a Read that serves the caller through bytes.Buffer.Read (which reports io.EOF on an empty buffer) does so only under Len() != 0, so an empty record or empty message of the peer cannot end the stream. TRUNC: every narrowing integer conversion in mailbox is dominated by a bound that makes it exact (no silent truncation of lengths). Not decided: the equality of concatenations as a property of histories (follows from RDC-1/2/3 + C08 + C16 only by an inductive argument the checker does not make).",
 		[]string{"bytes.Buffer.Read/Write implement the io.Reader/io.Writer contract; copy returns min(len(dst), len(src))"},
 		runC15)
 }
@@ -106,6 +106,9 @@ func runC15(c *Checker) {
 	}
 	c.floor("RDC-3", 6)
 	c.floor("RDC-4", 2)
+	// the bytes a Read keeps for later calls must stay what they were: the record layer hands up
+	// fresh plaintext buffers and keeps reader and writer state apart (DUPLEX, as C05/C08)
+	ruleDUPLEX(c)
 	// a new record may only be started when nothing of the previous one is pending: otherwise bytes
 	// that Write already reported as written are overwritten and lost (as C16 FLUSH)
 	if wm := w.Func("(*mailbox.Machine).WriteMessage"); wm != nil {
